@@ -354,6 +354,8 @@ pub struct E1<C> {
     pub hang_key: Arc<dyn Fn(&C) -> String + Send + Sync>,
     /// fraction of the remaining budget this section may use
     pub budget_share: f64,
+    /// number of consecutive cases a worker pulls at once (1 for sections with heavy cases)
+    pub batch: usize,
 }
 
 impl<C: Serialize + DeserializeOwned + Clone + Send + 'static> E1<C> {
@@ -371,7 +373,12 @@ impl<C: Serialize + DeserializeOwned + Clone + Send + 'static> E1<C> {
             deadline: Duration::from_secs(60),
             hang_key: Arc::new(|_| "nontermination".to_string()),
             budget_share: 1.0,
+            batch: 16,
         })
+    }
+    pub fn batch(mut self: Box<Self>, n: usize) -> Box<Self> {
+        self.batch = n.max(1);
+        self
     }
     pub fn deadline(mut self: Box<Self>, d: Duration) -> Box<Self> {
         self.deadline = d;
@@ -394,6 +401,7 @@ struct WorkerSlot<C> {
 }
 
 struct Shared<C> {
+    batch: usize,
     iter: Mutex<Option<CaseIter<C>>>,
     stop: AtomicBool,
     pulled: AtomicU64,
@@ -419,11 +427,11 @@ fn worker_loop<C: Serialize + Clone + Send + 'static>(
             break;
         }
         // pull a small batch
-        let mut batch: Vec<(u64, C)> = Vec::with_capacity(16);
+        let mut batch: Vec<(u64, C)> = Vec::with_capacity(sh.batch);
         {
             let mut it = sh.iter.lock().unwrap();
             if let Some(i) = it.as_mut() {
-                for _ in 0..16 {
+                for _ in 0..sh.batch {
                     match i.next() {
                         Some(c) => {
                             let idx = sh.pulled.fetch_add(1, Ordering::SeqCst);
@@ -560,6 +568,7 @@ impl<C: Serialize + DeserializeOwned + Clone + Send + 'static> AnySection for E1
         let iter: CaseIter<C> = Box::new(head.into_iter().chain(iter));
 
         let sh = Arc::new(Shared {
+            batch: self.batch,
             iter: Mutex::new(Some(iter)),
             stop: AtomicBool::new(false),
             pulled: AtomicU64::new(0),
